@@ -290,6 +290,20 @@ class Executor:
             self.origin[self.names[s]] = s
         return self.names[s]
 
+    def term_origins(self, term):
+        """keys of the symbolic inputs a z3 term is built from"""
+        seen, out, todo = set(), [], [term]
+        while todo:
+            t = todo.pop()
+            if t.get_id() in seen:
+                continue
+            seen.add(t.get_id())
+            if z3.is_const(t) and t.decl().kind() == z3.Z3_OP_UNINTERPRETED:
+                o = self.origin.get(t.decl().name())
+                out.append(o if o is not None else t.decl().name())
+            todo.extend(t.children())
+        return out
+
     # ---- fresh values ------------------------------------------------------------------------
     def fresh(self, st, ty, key):
         ty = ty.strip()
